@@ -153,7 +153,7 @@ def run(tier):
     # (d) wide generated tables: every opcode family (look-ahead search, match patterns with loops over sub-patterns that
     #     can match nothing, nocont/compbrl/sequence delimiters, base chains, grouping, swap ...); the tick budget covers
     #     the instrumented loops, the wall-clock watchdog everything else (doPassSearch, chain walks, the compiler)
-    wide = st.wide_cases(rng, 150 if tier == "quick" else 4000, per_table=5, back=True, exact=False, budget=150000, tag="c03w")
+    wide = st.wide_cases(rng, 150 if tier == "quick" else 4000, per_table=5, back=True, exact=False, budget=150000, tag="c03w", groupreplace=True)
     for c in wide:
         c.setup.insert(0, "HOOK ticks 1")
         c.meta["kind"] = "generated"
